@@ -474,12 +474,202 @@ func (g *gen) runScript(w *world, sc rscript, inject bool) (obs []string, injInf
 	return
 }
 
+
+// C02: text that arrives in the clear while the conversation is encrypted (or finished) is never
+// handed over silently: it comes with the received-unencrypted event, however the session was started
+// and whatever the whitespace tag state is
+func (g *gen) plaintextWhileEncrypted(w *world) {
+	w.parties = map[string]*party{}
+	w.dead = false
+	version := 2 + g.r.Intn(2)
+	pol := 2
+	if version == 3 {
+		pol = 4
+	}
+	start := g.r.Intn(3)
+	polA, polB := pol, pol
+	if start > 0 {
+		polA |= 16 // sends the whitespace tag
+		polB |= 32 // starts the key exchange on it
+	}
+	a := w.newParty(partyCfg{policies: polA, keyIdx: 0, errh: true})
+	b := w.newParty(partyCfg{policies: polB, keyIdx: 1, errh: true})
+	l := &link{w: w, a: a, b: b}
+	if start == 0 {
+		l.enqueue(a, []otr3.ValidMessage{w.query(a)})
+	} else {
+		for i := 0; i < start; i++ { // one or two tagged plaintexts before the exchange
+			ts, _ := w.send(a, g.cleanText())
+			l.enqueue(a, ts)
+		}
+	}
+	l.settle(40)
+	if !a.c.IsEncrypted() || !b.c.IsEncrypted() || w.dead {
+		return
+	}
+	ev := fmt.Sprintf("msg:%d", int(otr3.MessageEventReceivedMessageUnencrypted))
+	tag := " \t  \t\t\t\t \t \t \t  " + map[int]string{2: "  \t\t  \t ", 3: "  \t\t  \t\t"}[version]
+	for _, p := range []*party{a, b} {
+		for k := 0; k < 2 && !w.dead; k++ {
+			text := g.cleanText()
+			m := append([]byte{}, text...)
+			if k == 1 {
+				m = append(m, []byte(tag)...)
+			}
+			plain, _, _, _ := w.recv(p, m)
+			olog.ok("C02")
+			if plain != nil && !strings.Contains(lastEvents, ev) {
+				olog.viol("C02", "cleartext-delivered-without-warning", fmt.Sprintf("OTRv%d, session started by %s: %s is encrypted and hands over the cleartext %q (tagged: %v) without the received-unencrypted event (events %s)", version, []string{"a query", "one tagged plaintext", "two tagged plaintexts"}[start], p.id, plain, k == 1, lastEvents))
+			}
+		}
+	}
+}
+
+
+// C06: a Reveal Signature message that is rejected (damaged MAC) must be as good as lost: when the peer
+// then starts the exchange anew instead of retransmitting, the new exchange completes - exactly as it
+// does when the damaged message never arrives
+func (g *gen) restartAfterRejectedRevealSig(w *world) {
+	version := 2 + g.r.Intn(2)
+	pol := 2
+	if version == 3 {
+		pol = 4
+	}
+	outcome := func(deliverDamaged bool) (done bool, ok bool) {
+		w.parties = map[string]*party{}
+		w.dead = false
+		a := w.newParty(partyCfg{policies: pol | 16, keyIdx: 0, errh: true})
+		b := w.newParty(partyCfg{policies: pol | 32, keyIdx: 1, errh: true})
+		fwd := func(to *party, ms []otr3.ValidMessage) (out []otr3.ValidMessage) {
+			for _, m := range ms {
+				_, ts, _, _ := w.recv(to, m)
+				out = append(out, ts...)
+			}
+			return
+		}
+		t1, _ := w.send(a, g.cleanText())
+		commit := fwd(b, t1)
+		dhkey := fwd(a, commit)
+		reveal := fwd(b, dhkey)
+		if len(reveal) != 1 || w.dead {
+			return false, false
+		}
+		if deliverDamaged {
+			bin := decodeWire(reveal[0])
+			if len(bin) < 30 {
+				return false, false
+			}
+			bin[len(bin)-3] ^= 4 // inside the MAC
+			plain, ts, _, _ := w.recv(a, encodeWire(bin))
+			if plain != nil || len(ts) > 0 {
+				return false, false // (not rejected: nothing to compare)
+			}
+		}
+		// the genuine Reveal Signature message is lost; a's next tagged text makes b start anew
+		w.tick(61)
+		t2, _ := w.send(a, g.cleanText())
+		l := &link{w: w, a: a, b: b}
+		l.enqueue(a, t2)
+		l.settle(30)
+		return true, a.c.IsEncrypted() && b.c.IsEncrypted() && !w.dead
+	}
+	d1, without := outcome(false)
+	d2, with := outcome(true)
+	if !d1 || !d2 {
+		return
+	}
+	olog.ok("C06")
+	g.dist[fmt.Sprintf("reject:revealsig-restart:without=%v,with=%v", without, with)]++
+	if without && !with {
+		olog.viol("C06", "rejected-message-changes:later-key-exchange", fmt.Sprintf("OTRv%d: a Reveal Signature message with a damaged MAC is rejected; the exchange the peer then starts anew fails, whereas it completes when the damaged message is lost instead", version))
+	}
+}
+
+
+// C06 / C18: a message that the peer reported unreadable waits for the next key exchange; a Signature
+// message that is rejected (damaged MAC) on the way must not make it disappear
+func (g *gen) pendingResendAfterRejectedSig(w *world) {
+	version := 2 + g.r.Intn(2)
+	pol := 2
+	if version == 3 {
+		pol = 4
+	}
+	outcome := func(deliverDamaged bool) (done bool, resent int) {
+		w.parties = map[string]*party{}
+		w.dead = false
+		a := w.newParty(partyCfg{policies: pol, keyIdx: 0, errh: true})
+		b := w.newParty(partyCfg{policies: pol, keyIdx: 1, errh: true})
+		l := &link{w: w, a: a, b: b}
+		l.enqueue(b, []otr3.ValidMessage{w.query(b)})
+		l.settle(40)
+		if !a.c.IsEncrypted() || !b.c.IsEncrypted() || w.dead {
+			return false, 0
+		}
+		text := []byte("the message that got lost")
+		w.send(a, text)                                // lost on the way
+		w.recv(a, []byte("?OTR Error: unreadable")) // the peer saw something it could not read
+		w.tick(61)
+		fwd := func(to *party, ms []otr3.ValidMessage) (out []otr3.ValidMessage) {
+			for _, m := range ms {
+				_, ts, _, _ := w.recv(to, m)
+				out = append(out, ts...)
+			}
+			return
+		}
+		commit := fwd(a, []otr3.ValidMessage{w.query(b)})
+		dhkey := fwd(b, commit)
+		reveal := fwd(a, dhkey)
+		sig := fwd(b, reveal)
+		if len(sig) != 1 || w.dead {
+			return false, 0
+		}
+		if deliverDamaged {
+			bin := decodeWire(sig[0])
+			if len(bin) < 30 {
+				return false, 0
+			}
+			bin[len(bin)-3] ^= 4
+			if plain, ts, _, _ := w.recv(a, encodeWire(bin)); plain != nil || len(ts) > 0 {
+				return false, 0
+			}
+		}
+		out := fwd(a, sig)
+		fwd(b, out)
+		for _, p := range b.received {
+			if bytes.Equal(p, append([]byte("[resent] "), text...)) {
+				resent++
+			}
+		}
+		return true, resent
+	}
+	d1, without := outcome(false)
+	d2, with := outcome(true)
+	if !d1 || !d2 {
+		return
+	}
+	olog.ok("C06")
+	olog.ok("C18")
+	g.dist[fmt.Sprintf("reject:resend-after-rejected-sig:without=%d,with=%d", without, with)]++
+	if without != with {
+		olog.viol("C06", "rejected-message-changes:pending-retransmission", fmt.Sprintf("OTRv%d: a message reported unreadable waits for the next key exchange; when a Signature message with a damaged MAC is rejected before the genuine one arrives it is resent %d times, otherwise %d times", version, with, without))
+	}
+}
+
 func init() {
 	profiles["reject"] = func(seed int64, n int, out *emitter, extra map[string]interface{}) map[string]int {
 		g := &gen{r: rand.New(rand.NewSource(seed)), out: out, dist: map[string]int{}}
 		olog = &oracleLog{checked: map[string]int{}, out: out}
 		w := newWorld(g)
 		for i := 0; i < n; i++ {
+			if i%8 == 0 {
+				g.plaintextWhileEncrypted(w)
+			}
+			if i%8 == 4 {
+				g.restartAfterRejectedRevealSig(w)
+			}
+			if i%8 == 6 {
+				g.pendingResendAfterRejectedSig(w)
+			}
 			sc := g.makeScript()
 			obs1, info, rejected := g.runScript(w, sc, true)
 			if info == "" {
